@@ -52,7 +52,7 @@ EmptyHist(r) ==
    downView |-> [n \in NodeIds(r) |-> ND(r, n).view], initView |-> [n \in NodeIds(r) |-> ND(r, n).view],
    leaseMs |-> r.cfg.lease_ms, sentAt |-> [m \in {} |-> 0],
    ackSend |-> [n \in NodeIds(r) |-> [p \in NodeIds(r) |-> 0]],
-   ackedMax |-> 0, readFloor |-> [i \in {} |-> 0], readAt |-> [i \in {} |-> 0]]
+   ackedMax |-> 0, readFloor |-> [i \in {} |-> 0], readAt |-> [i \in {} |-> 0], readIdx |-> [i \in {} |-> 0]]
 
 (***************************************************************************)
 (* History update from one record                                           *)
@@ -606,6 +606,14 @@ Next ==
                                                            /\ r.msgs[1].t >= ND(rp, n).term /\ r.msgs[1].req \in DOMAIN hn0.sentAt
                                                         THEN [@[n] EXCEPT ![r.a.from] = Max(@, hn0.sentAt[r.msgs[1].req])]
                                                         ELSE @[n]],
+                                                \* DEClient!ReadIndex at the arrival of a linearizable read (state before the step)
+                                                !.readIdx = LET ci == Evs(r, "ClientInvoke")
+                                                                new == {j \in 1..Len(ci) : ci[j].kind = "read" /\ ci[j].policy = "lin"
+                                                                           /\ ND(rp, ci[j].node).up}
+                                                            IN [i \in DOMAIN @ \cup {ci[j].id : j \in new} |->
+                                                                  IF i \in DOMAIN @ THEN @[i]
+                                                                  ELSE LET j == CHOOSE x \in new : ci[x].id = i
+                                                                       IN Max(ND(rp, ci[j].node).commit, ND(rp, ci[j].node).noop)],
                                                 !.lostByReset = @ \cup LostByReset(rp, r),
                                                 !.hsLoss = @ \/ HsLossNow(h, rp, r),
                                                 !.gapSeen = @ \/ \E n \in NodeIds(r) : ~Contiguous(ND(r, n).log)]
@@ -615,13 +623,19 @@ Next ==
                                        LET S == {ln[j].t : j \in {x \in 1..Len(ln) : ln[x].n = n}}
                                            base == IF ND(r, n).inc # h.inc[n] THEN 0 ELSE @[n]  \* new process, new subscription
                                        IN IF S = {} THEN base ELSE CHOOSE m \in S : \A o \in S : m >= o]]
+                 \* layer 2, client layer (DEClient): a linearizable read is answered only by a leader whose state
+                 \* machine has reached the read index fixed at the read's arrival
+                 gdiv == {D(r, "read-served-before-apply", cr[j].node) :
+                            j \in {x \in 1..Len(cr) : cr[x].kind = "read" /\ cr[x].policy = "lin" /\ cr[x].ok
+                                      /\ cr[x].id \in DOMAIN hn.readIdx /\ ND(r, cr[x].node).up
+                                      /\ ND(r, cr[x].node).applied < hn.readIdx[cr[x].id]}}
                  rdiv == IF Len(Evs(r, "RoundEnd")) > 0 /\ r.a.a \notin {"Recover", "Drain", "Final", "RecoverEnd", "DrainEnd", "FinalEnd"}
                          THEN LET c == Evs(r, "RoundEnd")[1].n
                               IN IF RoundPost(hp2, rp, r, c) THEN {} ELSE {D(r, "round-outcome", c)}
                          ELSE {}
              IN /\ h' = hn2
                 /\ TLCSet(1, TLCGet(1) \cup Monitors(h, hn, rp, r))
-                /\ TLCSet(2, TLCGet(2) \cup Conf(h, rp, r) \cup rdiv)
+                /\ TLCSet(2, TLCGet(2) \cup Conf(h, rp, r) \cup rdiv \cup gdiv)
                 /\ out' = [out EXCEPT !.steps = @ + 1,
                                       !.conf = @ + (IF r.applied THEN 1 ELSE 0)]
 
